@@ -7,22 +7,83 @@ import contextlib
 class _SimFuture:
     def __init__(self, ex, fn, args, kwargs):
         self.ex, self.fn, self.args, self.kwargs = ex, fn, args, kwargs
-        self.done = False
+        self._done = False
+        self.completed_at = None
         self.value = None
         self.exc = None
+
+    _completed = 0  # class-wide completion counter (completion ORDER is part of the simulated behaviour)
 
     def _run(self):
         try:
             self.value = self.fn(*self.args, **self.kwargs)
         except BaseException as e:  # noqa: BLE001
             self.exc = e
-        self.done = True
+        self._done = True
+        _SimFuture._completed += 1
+        self.completed_at = _SimFuture._completed
+        for cb in getattr(self, "_cbs", []):
+            cb(self)
+
+    # enough of the concurrent.futures.Future interface for as_completed / wait style code
+    def add_done_callback(self, cb):
+        if self._done:
+            cb(self)
+        else:
+            self.__dict__.setdefault("_cbs", []).append(cb)
+
+    def exception(self, timeout=None):
+        self.ex._drain_until(self)
+        return self.exc
+
+    def done(self):
+        return self._done
+
+    def cancel(self):
+        return False
+
+    def cancelled(self):
+        return False
+
+    def running(self):
+        return False
 
     def result(self, timeout=None):
         self.ex._drain_until(self)
         if self.exc is not None:
             raise self.exc
         return self.value
+
+
+def sim_as_completed(futures, timeout=None):
+    """concurrent.futures.as_completed over simulated futures: all pending jobs run (in the order /
+    interleaving the tape decides) and the futures are yielded in their simulated completion order."""
+    futures = list(futures)
+    for f in futures:
+        f.ex._drain_until(f)
+    yield from sorted(futures, key=lambda f: f.completed_at)
+
+
+def sim_wait(futures, timeout=None, return_when="ALL_COMPLETED"):
+    futures = list(futures)
+    for f in futures:
+        f.ex._drain_until(f)
+    return set(futures), set()
+
+
+def _patch_futures_api(fc):
+    """If flox.core (or a change to it) uses as_completed / wait, give it the simulated versions."""
+    saved = {}
+    for name, repl in (("as_completed", sim_as_completed), ("wait", sim_wait)):
+        if hasattr(fc, name):
+            saved[name] = getattr(fc, name)
+            setattr(fc, name, repl)
+    return saved
+
+
+def _unpatch_futures_api(fc, saved):
+    for name, orig in saved.items():
+        setattr(fc, name, orig)
 
 
 class SimExecutor:
@@ -57,7 +118,7 @@ class SimExecutor:
         f._run()
 
     def _drain_until(self, fut):
-        while not fut.done:
+        while not fut._done:
             self._run_one()
 
     def shutdown(self, wait=True):
@@ -72,10 +133,12 @@ def simulated_planner_pool(tape):
     cls = type("SimExecutorBound", (SimExecutor,), {"tape": tape, "stats": {"jobs": 0, "reordered": 0}})
     orig = fc.ThreadPoolExecutor
     fc.ThreadPoolExecutor = cls
+    saved = _patch_futures_api(fc)
     try:
         yield cls.stats
     finally:
         fc.ThreadPoolExecutor = orig
+        _unpatch_futures_api(fc, saved)
 
 
 class SimClock:
@@ -122,7 +185,7 @@ class PreemptiveSimExecutor(SimExecutor):
     max_steps = 20000
 
     def _drain_until(self, fut):
-        if fut.done:
+        if fut._done:
             return
         self._run_all_interleaved()
 
@@ -207,7 +270,9 @@ def simulated_planner_pool_preemptive(tape):
     cls = type("PreemptiveSimExecutorBound", (PreemptiveSimExecutor,), {"tape": tape, "stats": {"jobs": 0, "reordered": 0, "steps": 0, "switches": 0}})
     orig = fc.ThreadPoolExecutor
     fc.ThreadPoolExecutor = cls
+    saved = _patch_futures_api(fc)
     try:
         yield cls.stats
     finally:
         fc.ThreadPoolExecutor = orig
+        _unpatch_futures_api(fc, saved)
